@@ -73,6 +73,19 @@ var scenarios = map[string]scenario{
 		s.N.Receive(s.Commit(2, p))
 		return s.W
 	}},
+	// D14: a watch-only node never verified pre-commits stored while transactions were missing.
+	"D14-watchonly-precommit-missing-tx": {Prop: "C02", Key: "precommit-quorum", Run: func(keep bool) *sim.World {
+		s := sim.NewSolo(soloCfg(4, 1, 0), &ReplaySrc{}, 0, true, []*sim.Mon{sim.MonC02()}, keep)
+		s.N.Start() // validator 0 carries the watch-only flag; height 2, primary 2
+		tx := s.W.NewTx(false)
+		p := s.Proposal(0, s.NextTs(), 1, tx)
+		s.N.Receive(p)
+		s.N.Receive(s.BadPreCommit(1, 0, 5)) // cannot be verified yet: a transaction is missing
+		s.N.Transaction(tx)
+		s.N.Receive(s.PreCommit(2, p))
+		s.N.Receive(s.PreCommit(3, p))
+		return s.W
+	}},
 	// D12: the primary counted an early response naming another proposal.
 	"D12-primary-early-response": {Prop: "C04", Key: "commit-without-prep-quorum", Run: func(keep bool) *sim.World {
 		s := sim.NewSolo(soloCfg(7, 5, -1), &ReplaySrc{}, 0, false, []*sim.Mon{sim.MonC04()}, keep)
